@@ -1205,6 +1205,7 @@ class BufferedWriter(IndexWriter):
         self.commitargs = commitargs or {}
 
         self.lock = threading.RLock()
+        self._finished = False
         self.writer = self.index.writer(**self.writerargs)
 
         self._make_ram_index()
@@ -1259,9 +1260,17 @@ class BufferedWriter(IndexWriter):
         # other threads (callers sharing this object, the timer thread) must
         # never see the writer between commit() and its replacement
         with self.lock:
-            if self.writer.is_closed:
+            if self._finished:
                 # Already closed (a timer that fired while close() ran)
                 return
+
+            if self.writer.is_closed:
+                # An earlier flush committed but could not open the next
+                # writer (another writer had taken the lock in between).
+                # Try again now, so that what has been buffered since is not
+                # silently dropped; if the index is still locked the caller
+                # gets the LockError and can try again later
+                self.writer = self.index.writer(**self.writerargs)
 
             if self.period:
                 self.timer.cancel()
@@ -1279,6 +1288,8 @@ class BufferedWriter(IndexWriter):
                 if self.period:
                     self.timer = threading.Timer(self.period, self.commit)
                     self.timer.start()
+            else:
+                self._finished = True
 
     def add_reader(self, reader):
         # Pass through to the underlying on-disk index
